@@ -55,7 +55,18 @@ func newRigWith(c *ctx, name string, args []string, initManual string) (*rig, er
 	}
 	full := append([]string{"-registry.backend", "consul", "-registry.consul.addr", a.Addr()}, args...)
 	logPath := filepath.Join(c.Dir, fmt.Sprintf("fabio-%s-%d.log", name, rigSeq.Add(1)))
-	p, err := fabioproc.Start(c.Fabio, logPath, full, nil)
+	// arguments of the form ENV:K=V are environment variables of the child
+	var env []string
+	kept := full[:0:0]
+	for _, a := range full {
+		if strings.HasPrefix(a, "ENV:") {
+			env = append(env, strings.TrimPrefix(a, "ENV:"))
+		} else {
+			kept = append(kept, a)
+		}
+	}
+	full = kept
+	p, err := fabioproc.Start(c.Fabio, logPath, full, env)
 	if err != nil {
 		a.Close()
 		return nil, err
